@@ -186,9 +186,15 @@ pub enum Kind {
     DerefDense,
     DerefVec,
     DerefBTree,
+    FlaggedBTree,
+    FlaggedDefault,
+    FlaggedNull,
+    DerefHashMap,
+    DerefDefault,
+    DerefNull,
 }
 
-pub const ALL_KINDS: [Kind; 12] = [
+pub const ALL_KINDS: [Kind; 18] = [
     Kind::Vec,
     Kind::Dense,
     Kind::DefaultVec,
@@ -201,6 +207,12 @@ pub const ALL_KINDS: [Kind; 12] = [
     Kind::DerefDense,
     Kind::DerefVec,
     Kind::DerefBTree,
+    Kind::FlaggedBTree,
+    Kind::FlaggedDefault,
+    Kind::FlaggedNull,
+    Kind::DerefHashMap,
+    Kind::DerefDefault,
+    Kind::DerefNull,
 ];
 
 impl Kind {
@@ -216,13 +228,19 @@ impl Kind {
                 | Kind::DerefDense
                 | Kind::DerefVec
                 | Kind::DerefBTree
+                | Kind::FlaggedBTree
+                | Kind::FlaggedDefault
+                | Kind::FlaggedNull
+                | Kind::DerefHashMap
+                | Kind::DerefDefault
+                | Kind::DerefNull
         )
     }
     pub fn deref_flagged(self) -> bool {
-        matches!(self, Kind::DerefDense | Kind::DerefVec | Kind::DerefBTree)
+        matches!(self, Kind::DerefDense | Kind::DerefVec | Kind::DerefBTree | Kind::DerefHashMap | Kind::DerefDefault | Kind::DerefNull)
     }
     pub fn zst(self) -> bool {
-        self == Kind::Null
+        matches!(self, Kind::Null | Kind::FlaggedNull | Kind::DerefNull)
     }
 }
 
@@ -275,64 +293,76 @@ zoo_comp!(CFlagHash, Kind::FlaggedHashMap, FlaggedStorage<Self, HashMapStorage<S
 zoo_comp!(CDerefDense, Kind::DerefDense, DerefFlaggedStorage<Self, DenseVecStorage<Self>>);
 zoo_comp!(CDerefVec, Kind::DerefVec, DerefFlaggedStorage<Self, VecStorage<Self>>);
 zoo_comp!(CDerefBTree, Kind::DerefBTree, DerefFlaggedStorage<Self, BTreeStorage<Self>>);
+zoo_comp!(CFlagBTree, Kind::FlaggedBTree, FlaggedStorage<Self, BTreeStorage<Self>>);
+zoo_comp!(CFlagDefault, Kind::FlaggedDefault, FlaggedStorage<Self, DefaultVecStorage<Self>>);
+zoo_comp!(CDerefHash, Kind::DerefHashMap, DerefFlaggedStorage<Self, HashMapStorage<Self>>);
+zoo_comp!(CDerefDefault, Kind::DerefDefault, DerefFlaggedStorage<Self, DefaultVecStorage<Self>>);
 
-/// Zero-sized component for `NullStorage`; instances are counted, not
-/// individually tracked.
-pub struct CNull;
+/// Zero-sized components (for `NullStorage`, bare and inside the tracking wrappers); instances are
+/// counted, not individually tracked.
+macro_rules! zst_comp {
+    ($name:ident, $kind:expr, $storage:ty) => {
+        pub struct $name;
 
-impl Component for CNull {
-    type Storage = NullStorage<Self>;
-}
+        impl Component for $name {
+            type Storage = $storage;
+        }
 
-impl Default for CNull {
-    fn default() -> Self {
-        with_ledger(|l| l.zst_constructed += 1);
-        CNull
-    }
-}
+        impl Default for $name {
+            fn default() -> Self {
+                with_ledger(|l| l.zst_constructed += 1);
+                $name
+            }
+        }
 
-impl Drop for CNull {
-    fn drop(&mut self) {
-        let fire = with_ledger(|l| {
-            if l.caller_drop {
-                l.zst_by_caller += 1;
-                false
-            } else {
-                l.zst_by_library += 1;
-                if l.zst_by_caller + l.zst_by_library > l.zst_constructed {
-                    l.errors.push(format!(
-                        "more zero-sized components destroyed ({}) than constructed ({})",
-                        l.zst_by_caller + l.zst_by_library,
-                        l.zst_constructed
-                    ));
-                }
-                if l.bomb_zst_ordinal == Some(l.zst_by_library) && !l.bomb_fired {
-                    l.bomb_fired = true;
-                    true
-                } else {
-                    false
+        impl Drop for $name {
+            fn drop(&mut self) {
+                let fire = with_ledger(|l| {
+                    if l.caller_drop {
+                        l.zst_by_caller += 1;
+                        false
+                    } else {
+                        l.zst_by_library += 1;
+                        if l.zst_by_caller + l.zst_by_library > l.zst_constructed {
+                            l.errors.push(format!(
+                                "more zero-sized components destroyed ({}) than constructed ({})",
+                                l.zst_by_caller + l.zst_by_library,
+                                l.zst_constructed
+                            ));
+                        }
+                        if l.bomb_zst_ordinal == Some(l.zst_by_library) && !l.bomb_fired {
+                            l.bomb_fired = true;
+                            true
+                        } else {
+                            false
+                        }
+                    }
+                });
+                if fire {
+                    panic!("verif-bomb: destructor of a zero-sized component panics");
                 }
             }
-        });
-        if fire {
-            panic!("verif-bomb: destructor of a zero-sized component panics");
         }
-    }
+
+        impl ZooComp for $name {
+            const KIND: Kind = $kind;
+            fn make(_: u32) -> Self {
+                $name::default()
+            }
+            fn ident(&self) -> (u64, u32) {
+                (0, 0)
+            }
+            fn set_payload(&mut self, _: u32) {}
+            fn check(&self) -> Result<(), String> {
+                Ok(())
+            }
+        }
+    };
 }
 
-impl ZooComp for CNull {
-    const KIND: Kind = Kind::Null;
-    fn make(_: u32) -> Self {
-        CNull::default()
-    }
-    fn ident(&self) -> (u64, u32) {
-        (0, 0)
-    }
-    fn set_payload(&mut self, _: u32) {}
-    fn check(&self) -> Result<(), String> {
-        Ok(())
-    }
-}
+zst_comp!(CNull, Kind::Null, NullStorage<Self>);
+zst_comp!(CFlagNull, Kind::FlaggedNull, FlaggedStorage<Self, NullStorage<Self>>);
+zst_comp!(CDerefNull, Kind::DerefNull, DerefFlaggedStorage<Self, NullStorage<Self>>);
 
 /// `with_kind!(kind, f(args..))` calls `f::<C>(args..)` for the component type
 /// of `kind`.
@@ -352,6 +382,12 @@ macro_rules! with_kind {
             $crate::zoo::Kind::DerefDense => $f::<$crate::zoo::CDerefDense>($($args),*),
             $crate::zoo::Kind::DerefVec => $f::<$crate::zoo::CDerefVec>($($args),*),
             $crate::zoo::Kind::DerefBTree => $f::<$crate::zoo::CDerefBTree>($($args),*),
+            $crate::zoo::Kind::FlaggedBTree => $f::<$crate::zoo::CFlagBTree>($($args),*),
+            $crate::zoo::Kind::FlaggedDefault => $f::<$crate::zoo::CFlagDefault>($($args),*),
+            $crate::zoo::Kind::FlaggedNull => $f::<$crate::zoo::CFlagNull>($($args),*),
+            $crate::zoo::Kind::DerefHashMap => $f::<$crate::zoo::CDerefHash>($($args),*),
+            $crate::zoo::Kind::DerefDefault => $f::<$crate::zoo::CDerefDefault>($($args),*),
+            $crate::zoo::Kind::DerefNull => $f::<$crate::zoo::CDerefNull>($($args),*),
         }
     };
 }
